@@ -419,6 +419,45 @@ def bv_int_items(ctx):
     it += [("verify", "int.bv_from", yj), ("verify", "int.try_from_bv", yj)]
     return it
 GROUPS["bv_int"] = dict(name="bv_int", features="#![feature(allocator_api)]", prelude=bv_int_prelude, items=bv_int_items)
+def div_bvf_prelude(ctx):
+    p = WORD_PRELUDE + ["conv_std.rs"] + VALUE_PRELUDE + ["value_div.rs", "bvf.rs", "bvf_val.rs", "bvf_div.rs"] + rhs_bvf_prelude(dict(ctx, SGN="-"))
+    if ctx["J"] != ctx["I"]:
+        p += [("bvf_div.rs", {"I": "{J}", "X": "{XJ}"})]
+    return p + ["cmp_std.rs", "bvf_div2.rs"]
+def div_bvf_items(ctx):
+    oj = {"I": "{J}", "X": "{XJ}"}
+    it = BVF_BASE + rhs_bvf_items(ctx) + stub(BVF_CORE)
+    it += stub(["bvf.is_zero", "bvf.significant_bits", "bvf.copy_range"])
+    if ctx["J"] != ctx["I"]:
+        it += [("stub", u, oj) for u in ("bvf.is_zero", "bvf.significant_bits", "bvf.copy_range", "bvf.len")]
+    it += [("stub", "bvf.try_from_bvf"), ("stub", "bvf.shl_assign", {"T": "usize"}), ("stub", "bvf.shr_assign", {"T": "u32"}),
+           ("stub", "bvf.partial_cmp_bvf", {"J": "{I}", "XJ": ""}), ("stub", "bvf.addsub_bvf", dict(ARITH["sub"], J="{I}", XJ=""))]
+    return it + verify(["bvf.div_rem_bvf"])
+GROUPS["bvf_div"] = dict(name="bvf_div", prelude=div_bvf_prelude, items=div_bvf_items)
+def div_bvf_bvd_prelude(ctx):
+    return (WORD_PRELUDE + ["conv_std.rs"] + VALUE_PRELUDE + ["value_div.rs", "bvf.rs", "bvf_val.rs", "bvf_div.rs"] + rhs_bvd_val_prelude(dict(ctx, SGN="-")) +
+            [("bvd_div.rs", {"I": "u64", "X": "{XD}"}), "cmp_std.rs", "bvf_div2.rs"])
+def div_bvf_bvd_items(ctx):
+    od = {"I": "u64", "X": "{XD}"}
+    it = BVF_BASE + rhs_bvd_items(ctx) + stub(BVF_CORE) + stub(["bvf.is_zero", "bvf.significant_bits", "bvf.copy_range"])
+    it += [("stub", u, od) for u in ("bvd.is_zero", "bvd.significant_bits", "bvd.copy_range", "bvd.len")]
+    it += [("stub", "bvf.try_from_bvd"), ("stub", "bvf.shl_assign", {"T": "usize"}), ("stub", "bvf.shr_assign", {"T": "u32"}),
+           ("stub", "bvf.partial_cmp_bvf", {"J": "{I}", "XJ": ""}), ("stub", "bvf.addsub_bvf", dict(ARITH["sub"], J="{I}", XJ=""))]
+    return it + verify(["bvf.div_rem_bvd"])
+GROUPS["bvf_div_bvd"] = dict(name="bvf_div_bvd", features="#![feature(allocator_api)]", prelude=div_bvf_bvd_prelude, items=div_bvf_bvd_items)
+def div_bvd_bvf_prelude(ctx):
+    c = dict(ctx, SGN="-")
+    return (BVD_VAL_PRELUDE + ["value_div.rs", "bvd_div.rs"] + src_bvf_prelude(c) +
+            ([("bvf_div.rs", {"I": "{J}", "X": "{XJ}"})]) + ["cmp_std.rs", "bvd_div2.rs"])
+def div_bvd_bvf_items(ctx):
+    oj = {"I": "{J}", "X": "{XJ}"}
+    it = BVD_BASE + src_bvf_items(ctx) + stub(BVD_CORE) + stub(["bvd.is_zero", "bvd.significant_bits", "bvd.resize", "bvd.clone"])
+    it += [("stub", u, oj) for u in ("bvf.is_zero", "bvf.significant_bits")]
+    it += [("stub", "bvd.from_bvf"), ("stub", "bvd.shl_assign", {"T": "usize"}), ("stub", "bvd.shr_assign", {"T": "u32"}),
+           ("stub", "bvd.partial_cmp_bvd"), ("stub", "bvd.addsub_bvd", ARITH_D["sub"])]
+    return it + verify(["bvd.div_rem_bvf"])
+GROUPS["bvd_div_bvf"] = dict(name="bvd_div_bvf", features="#![feature(allocator_api)]", prelude=div_bvd_bvf_prelude, items=div_bvd_bvf_items)
+GROUPS["div_theory"] = dict(name="div_theory", prelude=lambda ctx: WORD_PRELUDE + VALUE_PRELUDE + ["value_div.rs"], items=lambda ctx: [("decl", "decl.Bit")])
 GROUPS["mul_theory"] = dict(name="mul_theory", prelude=lambda ctx: WORD_PRELUDE + VALUE_PRELUDE + ["value_mul.rs"], items=lambda ctx: [("decl", "decl.Bit")])
 
 def cmp_prelude(ctx):
@@ -643,7 +682,9 @@ _BITOPS_Q = [("bvf_bitops", pair(i, j, **BITOPS[o])) for (i, j) in [("u64", "u64
 _BV_Q = BV_CORE_J + BV_MORE_J + bv_ops_jobs(["u64"], ("or",), BITOPS) + bv_ops_jobs(["u64"], ("add", "sub"), ARITH_D)
 PROPS["C03"] = {"quick": _ARITH_Q + BVD_ARITH_JOBS + _BITOPS_Q + _BV_Q, "thorough": PROPS["C01"]["thorough"] + PROPS["C04"]["thorough"]}
 PROPS["C20"] = {"quick": _ARITH_Q + BVD_ARITH_JOBS + _BITOPS_Q + bv_ops_jobs(["u64"], ("or",), BITOPS) + bv_ops_jobs(["u64"], ("add", "sub"), ARITH_D) + bv_shift_jobs(["u64"]) + dshift_ref(["usize"]) + [("bvd_misc", U64)] + FORMS_Q, "thorough": PROPS["C01"]["thorough"] + PROPS["C04"]["thorough"] + PROPS["C05"]["thorough"] + FORMS_T}
-PROPS["C02"] = {"quick": BVD_ARITH_JOBS[1:], "thorough": BVD_ARITH_JOBS}
+def div_jobs(pairs, ws):
+    return ([("div_theory", {"I": "u64"})] + [("bvf_div", pair(i, j)) for (i, j) in pairs] + [("bvf_div_bvd", dctx(i)) for i in ws] + [("bvd_div_bvf", pair("u64", j)) for j in ws])
+PROPS["C02"] = {"quick": BVD_ARITH_JOBS[1:] + div_jobs(PQ, WQ), "thorough": BVD_ARITH_JOBS + div_jobs(PT, W4)}
 
 # -------------------------------------------------------------------------------------------------
 # manifest texts
@@ -700,9 +741,15 @@ def dyn_only(pid, what, todo):
         text=("Bounded/random stand-in only (no deductive proof yet for this property): " + what + DYN_NOTE),
         note=("NOT a proof. " + todo + " " + TRUST_NOTE),
         technique="executable contracts on the real crate: seeded random search every run + Kani/CBMC bounded-exhaustive on small types (stand-in for contract units still to be written)")
-dyn_only("C02", "div_rem, /, %, /=, %= against u128 division for nine implementation pairings and native divisors; zero divisors must panic (checked natively).",
-         "Contract units for div_rem (value-level loop invariant prototyped in notes/) are not yet woven; D7 (divisor longer than capacity) was found and fixed. One callee of the division loop IS verified on every run of this check: "
-         "Bvd -= &Bvd (value-level contract, unit bvd.addsub_bvd); a definite failure of that unit is reported as a violation of this property.")
+MANIFEST_TEXT["C02"] = dict(
+    text=("Proof: the real restoring-division bodies `div_rem` of Bvf<I,N> (divisor Bvf<J,N2> of any word size, or Bvd) and of Bvd (divisor Bvf<J,N2>) are verified against the VALUE-level contract "
+          "`q.val == a.val / b.val, r.val == a.val % b.val, both of the dividend's length and well formed`, with `panics_if b.val == 0`: the only reachable panic is the division-by-zero assert (reached exactly when the "
+          "divisor's value is zero, empty divisors included) and `expect`/`unwrap` of the divisor conversion is proved unreachable also when the divisor is LONGER than the dividend or than its fixed capacity (D7). "
+          "The loop invariant is the classical one (divisor = b*2^i, rem < b*2^(i+1), a = q*b + rem, quotient bits <= i clear) over exact integer equations; every callee is a verified contract "
+          "(is_zero, significant_bits, copy_range, conversions, resize, <<=, >>=, -=, set, partial_cmp) bridged to values by a proved theory (spec/prelude/value_div.rs). "
+          "Exploration for the rest: div_rem, /, %, /=, %= against u128 division for nine implementation pairings and native divisors; zero divisors must panic (checked natively)." + DYN_NOTE),
+    note=("Not under contract (second engine only): Bvd / Bvd and Bv dividends (same algorithm text; Bvd's conversion of a &Bvd divisor goes through Box::clone), the operator forms / % /= %= (forward to div_rem), native-integer divisors. "
+          "`rem >= divisor` is rewritten to a helper that is std's default PartialOrd::ge over the verified partial_cmp (R22, T1). A-size: len + 64 <= usize::MAX/2 for Bvd operands. " + TRUST_NOTE))
 MANIFEST_TEXT["C03"] = dict(
     text=("Proof (per operation, inductive over histories): every unit under contract takes a well-formed vector (len <= capacity, every storage bit at or beyond len zero) to a well-formed vector and states its "
           "result over the whole abstract view, so after ANY sequence of the operations under contract the storage is normalised and every observer under contract sees only the bits below len; the check of this "
